@@ -703,6 +703,7 @@ func (w *WAL) sync(fsync bool) error {
 	}
 	start := time.Now()
 	err := fileutil.Fdatasync(w.tail().File)
+	verifWalSync(w, err)
 
 	duration := time.Since(start)
 	if duration > warnSyncDuration {
